@@ -471,6 +471,20 @@ func (e Element) IsVoidElement() bool {
 	return ok
 }
 
+// hasChildrenRequiringOwnLine reports whether any child is always followed by a
+// line break when written, so that the children cannot be kept on one line.
+func (e Element) hasChildrenRequiringOwnLine() bool {
+	for _, c := range e.Children {
+		if _, isWhitespace := c.(Whitespace); isWhitespace {
+			continue
+		}
+		if _, isTrailer := c.(WhitespaceTrailer); !isTrailer {
+			return true
+		}
+	}
+	return false
+}
+
 func (e Element) hasNonWhitespaceChildren() bool {
 	for _, c := range e.Children {
 		if _, isWhitespace := c.(Whitespace); !isWhitespace {
@@ -550,7 +564,7 @@ func (e Element) Write(w io.Writer, indent int) error {
 		closeAngleBracketIndent = indent
 	}
 	if e.hasNonWhitespaceChildren() {
-		if e.IndentChildren {
+		if e.IndentChildren || e.hasChildrenRequiringOwnLine() {
 			if err := writeIndent(w, closeAngleBracketIndent, ">\n"); err != nil {
 				return err
 			}
